@@ -72,14 +72,16 @@ Definition no_generics : generics := {| g_types := []; g_lifetimes := []; g_cons
 
 Definition memN (n : N) (l : list N) : bool := existsb (N.eqb n) l.
 
-(* utils.rs:2309-2353 GenericsSearch::any_in.  `visit_type_path` fires only when `path.get_ident()` is
-   Some, i.e. for a single segment WITHOUT arguments; the head of `T<..>` and the segments of `a::T` are
-   never compared with the parameter names ([head] = true below).  `visit_expr_path` looks at array
-   lengths (const parameters only); `visit_lifetime` at reference lifetimes. *)
+(* utils.rs generics_search::GenericsSearch::any_in.  `visit_type_path` fires (1) when `path.get_ident()`
+   is Some, i.e. for a single segment WITHOUT arguments - the head of `T<..>` is never compared with the
+   parameter names ([head] = true below) - and (2) for a path of several segments whose FIRST segment is a
+   type parameter without arguments (`T::Assoc`, also `T::Assoc<..>`; type parameters only, no leading `::`).
+   `visit_expr_path` looks at array lengths (const parameters only); `visit_lifetime` at reference
+   lifetimes.  The hits are OR-ed. *)
 Fixpoint any_in' (g : generics) (head : bool) (t : ty) : bool :=
   match t with
   | TId n => if head then false else memN n (g_types g) || memN n (g_consts g)
-  | TQual _ => false
+  | TQual segs => match segs with s :: _ => memN s (g_types g) | [] => false end
   | TApp f a => any_in' g true f || any_in' g false a
   | TRef lt _ t' => (match lt with Some l => memN l (g_lifetimes g) | None => false end) || any_in' g false t'
   | TSlice t' => any_in' g false t'
